@@ -38,6 +38,7 @@ TEMPLATES = {
 
 OCCS = {
     "distinct": [(1, 0), (0, 1), (1, 1), (2, 0)],
+    "a=b": [(1, 0), (1, 0), (0, 1), (2, 0)],
     "a=c": [(1, 0), (0, 1), (1, 0), (2, 0)],
     "b=c": [(1, 0), (0, 1), (0, 1), (1, 1)],
     "a=d,b=c": [(1, 0), (0, 1), (0, 1), (1, 0)],
@@ -134,7 +135,64 @@ def h_fromdict(env):
     env.holds("from_dict / copy reproduce classes, modes and parameters", bool(_plain()["from_dict_roundtrip"](a, b, m[0], m[1], m[2])))
 
 
-HARNESSES = {"algebra": h_algebra, "nest": h_nest, "fromdict": h_fromdict}
+# documented positional argument order of the Blackbird operations (Blackbird / Strawberry Fields gate signatures)
+BB_ARGS = {"Dgate": ("Displacement", ["r", "phi"]), "Xgate": ("PositionDisplacement", ["x"]), "Zgate": ("MomentumDisplacement", ["p"]),
+           "Sgate": ("Squeezing", ["r", "phi"]), "Pgate": ("QuadraticPhase", ["s"]), "Kgate": ("Kerr", ["xi"]), "Rgate": ("Phaseshifter", ["phi"]),
+           "BSgate": ("Beamsplitter", ["theta", "phi"]), "MZgate": ("MachZehnder", ["int_", "ext"]), "S2gate": ("Squeezing2", ["r", "phi"]),
+           "CXgate": ("ControlledX", ["s"]), "CZgate": ("ControlledZ", ["s"]), "CKgate": ("CrossKerr", ["xi"]), "Vgate": ("CubicPhase", ["gamma"]),
+           "Fouriergate": ("Fourier", [])}
+BB_TWO_MODE = {"BSgate", "MZgate", "S2gate", "CXgate", "CZgate", "CKgate"}
+
+
+class _Tok:
+    """an opaque parameter value: the export / load code may pass it around but not compute with it"""
+    def __init__(self, n):
+        self.n = n
+
+    def __repr__(self):
+        return "<%s>" % self.n
+
+
+def h_blackbird_ops(env):
+    """operation-level Blackbird round trip (no text): export_instructions puts every gate's parameters into the documented
+    positional order of its Blackbird operation, and load_instructions(export_instructions(p)) reproduces classes, modes
+    (in order) and parameters - for opaque parameter values and every solver-chosen gate / mode assignment."""
+    from piquasso.core import _blackbird as B
+    names = sorted(BB_ARGS)
+    g = env.pick_int("gate", 0, len(names) - 1)
+    bbname = names[g]
+    pqname, argnames = BB_ARGS[bbname]
+    m0 = env.pick_int("m0", 0, 3)
+    modes = [m0]
+    if bbname in BB_TWO_MODE:
+        m1 = env.pick_int("m1", 0, 3)
+        if m1 == m0:
+            if env.mode == "sym":
+                raise xa.PathAbort("distinct")
+            env.num_assumptions.append(("distinct", False))
+            return
+        modes.append(m1)
+    env.functions += [core.fn_ref(B.export_instructions), core.fn_ref(B.load_instructions), core.fn_ref(B._piquasso_instruction_to_blackbird_operation),
+                      core.fn_ref(B._blackbird_operation_to_instruction), core.fn_ref(B._get_instruction_params)]
+    cls = getattr(pq, pqname)
+    toks = {n: _Tok(n) for n in argnames}
+    first = pq.Phaseshifter(_Tok("first")).on_modes(3 - m0)
+    inst = cls(**toks).on_modes(*modes)
+    last = pq.Squeezing(_Tok("r_last"), _Tok("phi_last")).on_modes(m0)
+    prog = B.export_instructions([first, inst, last])
+    ops = prog.operations
+    ok = len(ops) == 3 and ops[1]["op"] == bbname and list(ops[1]["modes"]) == modes
+    ok = ok and len(ops[1]["args"]) == len(argnames) and all(a is toks[n] for a, n in zip(ops[1]["args"], argnames))
+    ok = ok and ops[0]["op"] == "Rgate" and ops[2]["op"] == "Sgate"
+    back = B.load_instructions(prog)
+    ok = ok and len(back) == 3
+    for x, y in zip(back, [first, inst, last]):
+        ok = ok and type(x) is type(y) and tuple(x.modes) == tuple(y.modes) and list(x.params) == list(y.params) \
+            and all(x.params[k] is y.params[k] for k in y.params)
+    env.holds("operation-level export order and round trip", bool(ok))
+
+
+HARNESSES = {"algebra": h_algebra, "nest": h_nest, "fromdict": h_fromdict, "blackbird_ops": h_blackbird_ops}
 
 # ----------------------------------------------------------------------------- structural parts (E-CH)
 HEADER = '''from typing import Tuple
@@ -209,9 +267,9 @@ def conditions(tier):
 
 
 def instances(tier):
-    out = [("nest", {"i0": a_, "i1": b_}) for a_, b_ in ((0, 1), (2, 0), (1, 2))] + [("fromdict", {})]
+    out = [("nest", {"i0": a_, "i1": b_}) for a_, b_ in ((0, 1), (2, 0), (1, 2))] + [("fromdict", {}), ("blackbird_ops", {})]
     for t in TEMPLATES:
-        for o in (("distinct", "b=c") if tier == "quick" else OCCS):
+        for o in OCCS:
             out.append(("algebra", {"template": t, "occs": o}))
     return out
 
